@@ -43,6 +43,10 @@ def run(res: C.Result):
                 if lf["kind"] == "disp":
                     lf["default_label"] = rng.choice([0, 0, -1, 7])
         r3 = random.Random(p["seed"] ^ 0xC05)
+        r4 = random.Random(p["seed"] ^ 0x5C05)
+        for lf in p["leaves"]:
+            if lf.get("default_label") is not None and r4.random() < 0.5:
+                lf["default_label_np"] = True          # configured from an array element: numpy.int64
         single = [m for m in p["moves"] if isinstance(m["expr"], int) and p["leaves"][m["expr"]]["kind"] in ("disp", "exch")
                   and sum(1 for m2 in p["moves"] if m["expr"] in ids_of(m2["expr"])) == 1]
         if single and r3.random() < 0.3:
@@ -62,6 +66,17 @@ def run(res: C.Result):
         p.update(force_swap=[e1, e2], max_cycles=2, steps=rng.randint(5, 9), verdicts=[True] * 40, vetoes=[], fixed=[])
         if k % 2 and len(p["exchange"]["symbols"]) == 1:
             p["force_swap_big"] = True
+        cases.append(p)
+    # relocation trials (delete one particle, then insert one, in ONE plain-composite trial), accepted and rejected: the atoms a rejected trial
+    # puts back must be the ones the labels describe
+    r5 = random.Random(res.seed ^ 0x5E10C)
+    for k in range(8 if quick else 80):
+        p = progs.relocate_program(r5, k)
+        p["steps"] = r5.randint(8, 14)
+        p["verdicts"] = [r5.random() < 0.5 for _ in range(120)]
+        for lf in p["leaves"]:
+            if lf["kind"] == "exch":
+                lf["default_label"] = None
         cases.append(p)
     outs = C.run_impl_parallel("c05.py", [{"cases": cases[i::16]} for i in range(16)], timeout=3000)
     results = [None] * len(cases)
@@ -118,7 +133,10 @@ def run(res: C.Result):
                         why.append(("labels:rejected-trial-changed-labels", f"move object {j}: labels changed by a trial with verdict {t['outcome']}"))
                 if post["ctx"]["N"] != pre["ctx"]["N"]:
                     why.append(("counter", f"counter changed {pre['ctx']['N']} -> {post['ctx']['N']} by a trial with verdict {t['outcome']}"))
-                # the label arrays did not change: then the ATOMS under them must not have moved either (one label per atom identity)
+                # the label arrays did not change: then the ATOMS under them must be the same atoms (one label per atom identity)
+                if (new_vids or gone_vids) and post["n"] == pre["n"]:
+                    why.append(("labels:other-atoms-after-rejection", f"after a trial with verdict {t['outcome']} the atoms {gone_vids[:4]} are gone and the atoms {new_vids[:4]} (which the trial "
+                                f"had inserted) sit under their labels; the label arrays and the counter still describe the atoms from before the trial"))
                 if sorted(post["vid"]) == sorted(pre["vid"]) and post["vid"] != pre["vid"]:
                     for j in label_leaves:
                         lp = pre["leaves"][j]["labels"]
